@@ -128,15 +128,19 @@ def run(ctx):
         ctx.hit("fn:union_many")
         try:
             r = ck.set_union_merge_many([u32(a) for a in arrays])
-            got = [int(x) for x in np.asarray(r).tolist()]
-            if got != sorted(set().union(*[set(a) for a in arrays])) if arrays else got != []:
-                ctx.oracle_fail("set_union_merge_many(%s) on the bounds-checked twin returned %s" % (str(arrays)[:120], str(got)[:80]),
+            got = ("ok", [int(x) for x in np.asarray(r).tolist()])
+            if got[1] != sorted(set().union(*[set(a) for a in arrays])) if arrays else got[1] != []:
+                ctx.oracle_fail("set_union_merge_many(%s) on the bounds-checked twin returned %s" % (str(arrays)[:120], str(got[1])[:80]),
                                 case, cls="C09-many-wrong")
         except IndexError as e:
+            got = ("oob", str(e))
             ctx.oracle_fail("set_union_merge_many(%s): bounds-checked twin raised IndexError (%s) — the shipped kernel reads/writes "
                             "outside its buffers here" % (str(arrays)[:120], e), case, cls="C09-oob")
         except Exception as e:
+            got = ("raise", type(e).__name__)
             ctx.oracle_fail("set_union_merge_many raised %s" % type(e).__name__, case, cls="C09-raises")
+        reqs.append({"op": "kern", "fn": "union_many", "arrays": arrays})     # the model's checked index loop
+        pend.append((case, got))
     ctx.exhaustive.append("k-way union on the twin: all lists of 0..3 subsets of [0, 3, 2^32-1]")
     # unsorted / duplicate inputs: outside C08's precondition but inside C09's theorem
     for _ in range(ctx.n(300)):
